@@ -47,10 +47,10 @@ static bool prefixes_ok(std::vector<LD> const &f, LD start, bool square_at_end)
 }
 static LD gam(unsigned k) { return (k * U_) / (1 - k * U_); }
 
-enum { L_PLU, L_LDL, L_LLT, L_ROW_EXCHANGE, L_SINGULAR_CLASS, L_MUST_SUCCEED, L_BAD_SCALE, L_NEAR_SINGULAR, L_GLOBAL_SCALE, L_LAST_STEP_SWAP, L_HILBERT, L_N_GE_8, L_FAILED_OK, L_PERM_NOT_INVOLUTION, L_DET_UNREPRESENTABLE, L_LARGE_ORDER, L_EXTREME_SCALE, L_ZERO_DIAGONAL };
+enum { L_PLU, L_LDL, L_LLT, L_ROW_EXCHANGE, L_SINGULAR_CLASS, L_MUST_SUCCEED, L_BAD_SCALE, L_NEAR_SINGULAR, L_GLOBAL_SCALE, L_LAST_STEP_SWAP, L_HILBERT, L_N_GE_8, L_FAILED_OK, L_PERM_NOT_INVOLUTION, L_DET_UNREPRESENTABLE, L_LARGE_ORDER, L_EXTREME_SCALE, L_ZERO_DIAGONAL, L_DUP_ADJACENT };
 static char const *const labels[] = {"plu", "ldl", "llt", "row_exchange_happened", "exactly_singular_class", "robustly_nonsingular_class", "rows_cols_scaled_2^k",
                                      "near_singular", "global_scale_2^s", "exchange_at_last_step", "hilbert_like", "n_ge_8", "factorization_reported_failure",
-                                     "permutation_not_self_inverse", "determinant_not_representable", "order_13_to_65_pattern_filled", "symmetric_scaling_over_nearly_the_whole_exponent_range", "determinant_family_on_a_given_factor_with_zero_diagonal", nullptr};
+                                     "permutation_not_self_inverse", "determinant_not_representable", "order_13_to_65_pattern_filled", "symmetric_scaling_over_nearly_the_whole_exponent_range", "determinant_family_on_a_given_factor_with_zero_diagonal", "ldl_adjacent_rows_and_columns_bit_identical", nullptr};
 static char const *const metrics[] = {"max_reconstruction_ratio", "max_solve_ratio", "max_inverse_ratio", "max_det_ratio", "max_lndet_ratio", nullptr};
 static uint8_t const dict[] = {3, 4, 7, 8, 9, 10, 11};
 static vp_info const info = {"C08", "factor", "", labels, metrics, 700, dict, sizeof(dict)};
@@ -461,7 +461,8 @@ static void check_sym(Tape &t, Ctx &cx, unsigned n, int kind)
     std::vector<R> A0(size_t(n) * n, R(0));
     auto at = [&](unsigned i, unsigned j) -> R & { return A0[size_t(i) * n + j]; };
     int expect = 0;
-    int cls = t.u8() % 10;
+    int cls = t.u8() % 11;
+    if (cls == 10 && (kind == 1 || n < 2)) { cls = 1; }
     bool extreme = false; // scaling over (nearly) the whole exponent range: factorisation, reconstruction and determinant family only
     auto sym_from = [&](std::vector<R> const &B) {
         for (unsigned i = 0; i < n; ++i) { for (unsigned j = 0; j < n; ++j) { at(i, j) = B[size_t(i) * n + j] + B[size_t(j) * n + i]; } }
@@ -485,6 +486,21 @@ static void check_sym(Tape &t, Ctx &cx, unsigned n, int kind)
         bbt(B, R(1 + t.u8() % 4));
         if (kind == 1) { expect = 2; cx.label(L_MUST_SUCCEED); }
         break;
+    case 10: {
+        // LDL^T only: row / column k+1 a bit-identical copy of row / column k (a_kk = a_k,k+1 = a_k+1,k+1) of a symmetric matrix
+        // of reals or small integers. The two rows go through identical operations, the multiplier l_k+1,k is x / x = 1 and the
+        // next pivot d - 1*1*d = 0 exactly: duplicated rows, to be reported as failure
+        bool ints = t.coin();
+        for (auto &v : B) { v = ints ? R(rd_int(t, 50)) : rd_real(t, -2, 2); }
+        sym_from(B);
+        unsigned k = t.u8() % (n - 1);
+        for (unsigned j = 0; j < n; ++j) { at(k + 1, j) = at(k, j); }
+        at(k + 1, k) = at(k + 1, k + 1) = at(k, k);
+        for (unsigned j = 0; j < n; ++j) { at(j, k + 1) = at(k + 1, j); at(j, k) = at(k, j) = at(k + 1, j); }
+        expect = 1;
+        cx.label(L_SINGULAR_CLASS);
+        cx.label(L_DUP_ADJACENT);
+        break; }
     case 1: // SPD reals
         for (auto &v : B) { v = rd_real(t, -2, 2); }
         bbt(B, R(std::ldexp(1.0, -int(t.u8() % 20))));
